@@ -377,35 +377,39 @@ class Folder:
                 return self._locals[node.id]
             return self.lookup(node.id)
         if isinstance(node, (ast.GeneratorExp, ast.ListComp, ast.SetComp, ast.DictComp)):
-            if len(node.generators) != 1:
-                raise Unfoldable(norm(node))
-            g = node.generators[0]
-            tgt = g.target
-            names = [tgt.id] if isinstance(tgt, ast.Name) else ([e.id for e in tgt.elts] if isinstance(tgt, ast.Tuple) and all(isinstance(e, ast.Name) for e in tgt.elts) else None)
-            if names is None:
-                raise Unfoldable(norm(node))
             out = []
-            saved = {v: self._locals.get(v, _MISSING) for v in names}
-            try:
-                for item in self.ev(g.iter):
-                    if isinstance(tgt, ast.Name):
-                        self._locals[tgt.id] = item
+
+            def loop(k: int) -> None:
+                if k == len(node.generators):
+                    if isinstance(node, ast.DictComp):
+                        out.append((self.ev(node.key), self.ev(node.value)))
                     else:
-                        if len(item) != len(names):
-                            raise Unfoldable(norm(node))
-                        for v, x in zip(names, item):
-                            self._locals[v] = x
-                    if all(self.ev(c) for c in g.ifs):
-                        if isinstance(node, ast.DictComp):
-                            out.append((self.ev(node.key), self.ev(node.value)))
+                        out.append(self.ev(node.elt))
+                    return
+                g = node.generators[k]
+                tgt = g.target
+                names = [tgt.id] if isinstance(tgt, ast.Name) else ([e.id for e in tgt.elts] if isinstance(tgt, ast.Tuple) and all(isinstance(e, ast.Name) for e in tgt.elts) else None)
+                if names is None or g.is_async:
+                    raise Unfoldable(norm(node))
+                saved = {v: self._locals.get(v, _MISSING) for v in names}
+                try:
+                    for item in self.ev(g.iter):
+                        if isinstance(tgt, ast.Name):
+                            self._locals[tgt.id] = item
                         else:
-                            out.append(self.ev(node.elt))
-            finally:
-                for v, x in saved.items():
-                    if x is _MISSING:
-                        self._locals.pop(v, None)
-                    else:
-                        self._locals[v] = x
+                            if len(item) != len(names):
+                                raise Unfoldable(norm(node))
+                            for v, x in zip(names, item):
+                                self._locals[v] = x
+                        if all(self.ev(c) for c in g.ifs):
+                            loop(k + 1)
+                finally:
+                    for v, x in saved.items():
+                        if x is _MISSING:
+                            self._locals.pop(v, None)
+                        else:
+                            self._locals[v] = x
+            loop(0)
             if isinstance(node, ast.SetComp):
                 return set(out)
             if isinstance(node, ast.DictComp):
@@ -476,10 +480,17 @@ class Folder:
                 return l in r
             if isinstance(op, ast.NotIn):
                 return l not in r
+            if isinstance(op, (ast.Lt, ast.LtE, ast.Gt, ast.GtE)) and type(l) is type(r) and isinstance(l, (int, str)):
+                return {ast.Lt: l < r, ast.LtE: l <= r, ast.Gt: l > r, ast.GtE: l >= r}[type(op)]
             raise Unfoldable(norm(node))
         if isinstance(node, ast.BoolOp):
-            vals = [self.ev(v) for v in node.values]
-            return all(vals) if isinstance(node.op, ast.And) else any(vals)
+            # operands in order, stopping where Python stops (a later operand may only be evaluable after an earlier test)
+            v_: Any = isinstance(node.op, ast.And)
+            for sub in node.values:
+                v_ = self.ev(sub)
+                if bool(v_) != isinstance(node.op, ast.And):
+                    return v_
+            return v_
         if isinstance(node, ast.UnaryOp) and isinstance(node.op, ast.Not):
             return not self.ev(node.operand)
         if isinstance(node, ast.Attribute):
@@ -489,6 +500,46 @@ class Folder:
             raise Unfoldable(norm(node))
         if isinstance(node, ast.Call):
             f = node.func
+            if norm(f) == "re.sub" and len(node.args) == 3 and not node.keywords:
+                a0, a1, a2 = (self.ev(a) for a in node.args)
+                if isinstance(a0, str) and isinstance(a1, str) and isinstance(a2, str):
+                    import re as _re
+                    return _re.sub(a0, a1, a2)  # a pure function of three constant strings
+            if isinstance(f, ast.Name) and f.id == "getattr" and len(node.args) == 2 and not node.keywords:
+                base = self.ev(node.args[0])
+                nm = self.ev(node.args[1])
+                if isinstance(base, ClassRef) and isinstance(nm, str):
+                    return self.repo.folder(base.module, base.name).lookup(nm)
+            if isinstance(f, ast.Name) and f.id in ("any", "all", "len") and len(node.args) == 1 and not node.keywords and f.id not in self._locals:
+                v = self.ev(node.args[0])
+                return {"any": any, "all": all, "len": len}[f.id](v)
+            if isinstance(f, ast.Attribute) and f.attr in ("startswith", "endswith") and len(node.args) == 1 and not node.keywords:
+                base = self.ev(f.value)
+                if isinstance(base, str):
+                    return getattr(base, f.attr)(self.ev(node.args[0]))
+            if isinstance(f, ast.Name) and self.cls is None and not node.keywords and not any(isinstance(a, ast.Starred) for a in node.args):
+                # a function of the same module whose body is assignments to locals and one final `return <expr>`:
+                # its value for constant arguments is a constant
+                fdef = next((x for x in self.module.tree.body if isinstance(x, ast.FunctionDef) and x.name == f.id), None)
+                if fdef is not None and not fdef.decorator_list and not fdef.args.vararg and not fdef.args.kwarg and len(fdef.args.args) == len(node.args):
+                    body = [x for x in fdef.body if not (isinstance(x, ast.Expr) and isinstance(x.value, ast.Constant))]
+                    if body and isinstance(body[-1], ast.Return) and body[-1].value is not None \
+                            and all(isinstance(x, ast.Assign) and len(x.targets) == 1 and isinstance(x.targets[0], ast.Name) for x in body[:-1]):
+                        argv = [self.ev(a) for a in node.args]
+                        names_ = [a.arg for a in fdef.args.args] + [x.targets[0].id for x in body[:-1]]
+                        saved_ = {v: self._locals.get(v, _MISSING) for v in names_}
+                        try:
+                            for a_, v_ in zip(fdef.args.args, argv):
+                                self._locals[a_.arg] = v_
+                            for x in body[:-1]:
+                                self._locals[x.targets[0].id] = self.ev(x.value)
+                            return self.ev(body[-1].value)
+                        finally:
+                            for v, x in saved_.items():
+                                if x is _MISSING:
+                                    self._locals.pop(v, None)
+                                else:
+                                    self._locals[v] = x
             if isinstance(f, ast.Name) and f.id in ("list", "set", "tuple", "frozenset", "sorted"):
                 if len(node.args) == 1 and not node.keywords:
                     v = self.ev(node.args[0])
